@@ -45,6 +45,18 @@ impl GhostChainSync {
         ]
         .concat()
     }
+    /// Decodes a buffer received from a peer. The buffer has to hold exactly the 36 byte header and
+    /// 82 bytes per entry.
+    pub fn try_deserialize(buffer: Vec<u8>) -> Result<GhostChainSync, std::io::Error> {
+        if buffer.len() < 36 {
+            return Err(std::io::Error::from(std::io::ErrorKind::InvalidData));
+        }
+        let count = u32::from_be_bytes(buffer[32..36].try_into().unwrap()) as u64;
+        if (buffer.len() as u64 - 36) != count * 82 {
+            return Err(std::io::Error::from(std::io::ErrorKind::InvalidData));
+        }
+        Ok(Self::deserialize(buffer))
+    }
     pub fn deserialize(buffer: Vec<u8>) -> GhostChainSync {
         let start: SaitoHash = buffer[0..32].to_vec().try_into().unwrap();
         let count: usize = u32::from_be_bytes(buffer[32..36].try_into().unwrap()) as usize;
